@@ -183,6 +183,7 @@ func TestC05(t *testing.T) {
 		cfg.PPost = 0
 		cfg.NoDataTests, cfg.ForceCatch, cfg.NoEmptyKeys = true, true, true // (paths identify nodes in this check)
 		cfg.PCatch, cfg.PVary, cfg.PAbsent, cfg.PJunk, cfg.PTestSat, cfg.PLight, cfg.POpts = 0.5, 0.4, 0.15, 0.08, 0.75, 0.3, 0.3
+		cfg.PCoercer = 0.1 // nodes with their own coercer (its refusal is a coercion failure like any other)
 		if h.Thorough() {
 			cfg.MaxDepth, cfg.MaxFields, cfg.MaxElems, cfg.ManyFields = 4, 6, 6, true
 		}
